@@ -33,6 +33,9 @@ type Layout struct {
 	// Gray: a known element was announced with a wire length different from the registry's.
 	// Reduced-size encoding is not supported by the library; exactness is not judged then.
 	Gray bool
+	// Opaque: the collector accepted a template the model would have refused for an unsupported element type
+	// only (see UnsupportedOnly); nothing is known about how it reads data for it.
+	Opaque bool
 }
 
 type Table map[Key]*Layout
@@ -104,6 +107,27 @@ func (t Table) Apply(r *Registry, mode string, msg []byte) (string, Key) {
 	}
 	t[k] = l
 	return "set", k
+}
+
+// UnsupportedOnly reports whether msg is a template message that Apply refuses solely because it
+// names registry elements of a data type the library declares unsupported (micro/nanosecond
+// timestamps, lists), in a lenient mode. Carrying such an element as opaque octets instead of
+// refusing the template contradicts no property.
+func UnsupportedOnly(r *Registry, mode string, msg []byte) bool {
+	if mode == Strict || len(msg) < 24 || binary.BigEndian.Uint16(msg[16:18]) != 2 {
+		return false
+	}
+	_, fields, _, err := refipfix.ParseTemplateRecord(msg[20:])
+	if err != nil {
+		return false
+	}
+	n := 0
+	for _, f := range fields {
+		if e, found := r.Lookup(f.Ent, f.ID); found && !regtable.Supported(e.Type) {
+			n++
+		}
+	}
+	return n > 0
 }
 
 // Outcome is what the collector did with one message, in harness terms.
